@@ -739,3 +739,4 @@ RULES = [
 	('17.y', 'no reviewed function gained a swallowed error (the Result of a fallible in-crate call dropped; rules/provenance.py)', lambda F: provenance.dr_for_property(F, 'C17', '17.y')),
 	('17.o', 'hand-written eq / cmp / partial_cmp / hash impls in this property\'s files: same field on both sides, reviewed direction, no reviewed key lost, hash within eq (rules/ordimpls.py)', lambda F: ordimpls.for_property(F, 'C17', '17.o')),
 ]
+RULES.append(('17.t', 'identity comparisons: every reviewed (function, identity type) == / != comparison (HTLCSource, Txid, OutPoint, ChannelId, PaymentHash, PublicKey, ...) is still made - a function does not silently change what it matches by (rules/provenance.py)', lambda F: provenance.ids_for_property(F, 'C17', '17.t')))
